@@ -546,6 +546,10 @@ def run(ctx: Ctx, rep: Report, tier: str) -> None:  # noqa: C901
     if not clash and not digits:
         rep.ok("protocol names ∩ actions; all-digit names", "empty")
 
+    # ---------------------------------------------------------------- R09.9 the table is the only judge of a name
+    rep.rule("R09.9")
+    _token_gates(ctx, rep, self_reach(pi), sorted(set(need)))
+
     # ---------------------------------------------------------------- R09.7 switches are render-only
     rep.rule("R09.7")
     _r09_7(ctx, rep)
@@ -591,6 +595,75 @@ def run(ctx: Ctx, rep: Report, tier: str) -> None:  # noqa: C901
         tables=sorted(defined) + sorted(prot_tables),
         unverified_names=sorted(unverified),
     )
+
+
+def _token_gates(ctx: Ctx, rep: Report, funcs: List[Func], names: List[str]) -> None:
+    """A token that is not a number is accepted exactly when the name table has it: any other test of the token in the
+    reader must let every name of the tables through (it is evaluated here on each of them), otherwise a name the
+    writer renders is refused by the reader."""
+    from ..fold import known
+
+    n_lookup = 0
+    for g in funcs:
+        cfg = ctx.cfg(g)
+        tables: Set[str] = set()
+        for n in own_nodes(g.node):
+            if isinstance(n, (ast.Assign, ast.AnnAssign, ast.NamedExpr)):
+                v = n.value
+                t = n.targets[0] if isinstance(n, ast.Assign) else n.target
+                if isinstance(t, ast.Name) and v is not None and any(isinstance(x, ast.Call) and isinstance(x.func, ast.Attribute) and x.func.attr == "names" for x in ast.walk(v)):
+                    tables.add(t.id)
+        toks: Dict[str, List[ast.AST]] = {}
+        for n in own_nodes(g.node):
+            tok = None
+            if isinstance(n, ast.Call) and isinstance(n.func, ast.Attribute) and n.func.attr == "get" and n.args and isinstance(n.args[0], ast.Name) and (src(n.func.value) in tables or ".names()" in src(n.func.value)):
+                tok = n.args[0].id
+            elif isinstance(n, ast.Subscript) and isinstance(n.slice, ast.Name) and (src(n.value) in tables or ".names()" in src(n.value)):
+                tok = n.slice.id
+            elif isinstance(n, ast.Compare) and len(n.ops) == 1 and isinstance(n.ops[0], (ast.In, ast.NotIn)) and isinstance(n.left, ast.Name) and (src(n.comparators[0]) in tables or ".names()" in src(n.comparators[0])):
+                tok = n.left.id
+            if tok:
+                toks.setdefault(tok, []).append(n)
+        for tok, lookups in sorted(toks.items()):
+            n_lookup += 1
+            look_nodes = [cfg.node_containing(x) for x in lookups]
+            look_nodes = [x for x in look_nodes if x is not None]
+            for c in cfg.live:
+                if c.kind != "cond" or c.ast is None:
+                    continue
+                t = c.ast
+                if not any(isinstance(x, ast.Name) and x.id == tok for x in ast.walk(t)):
+                    continue
+                if any(isinstance(x, ast.Name) and x.id in tables for x in ast.walk(t)) or ".names()" in src(t) or c in look_nodes:
+                    continue  # the lookup itself
+                if src(t) == f"{tok}.isdigit()":
+                    continue  # the number branch
+                # the test must be reached before the lookup to matter
+                if not any(ln in cfg.reachable(c, labels_avoid=("exc",)) for ln in look_nodes):
+                    continue
+                rep.instance()
+                refused = []
+                unknown = False
+                for nm in names:
+                    v = ctx.folder.fold(t, g.module, {tok: nm})
+                    if not known(v):
+                        unknown = True
+                        break
+                    lab = "T" if v else "F"
+                    succ = c.succs(lab)
+                    if not any(ln is s_ or ln in cfg.reachable(s_, labels_avoid=("exc",)) for s_ in succ for ln in look_nodes):
+                        refused.append(nm)
+                if unknown:
+                    rep.violation(g.qualname, snippet(t), f"a test of the token `{tok}` other than the table lookup stands before the lookup and cannot be evaluated on the table's names: nothing shows that every name the writer renders gets through", where(g, t))
+                elif refused:
+                    rep.violation(g.qualname, snippet(t), f"this test keeps {len(refused)} names of the tables from the lookup ({refused[:6]}...): the writer renders them, the reader refuses them", where(g, t), inp=f"Port('eq {refused[0]}', protocol='tcp')")
+                else:
+                    rep.ok(f"{g.qualname}: {snippet(t, 50)}", f"lets all {len(names)} table names through to the lookup", where=where(g, t))
+    rep.instance()
+    if n_lookup == 0:
+        rep.violation("Port", "name lookup", "no lookup of a token in PortName.names() was found in the port reader", where(funcs[0]) if funcs else "cisco_acl/port.py")
+    else:
+        rep.ok("port reader: name lookups", f"{n_lookup} token lookups; no test other than isdigit() and the table decides about a name", nontrivial=False)
 
 
 def _check_inverse_pairing(ctx: Ctx, rep: Report, swap_fn: Func) -> None:
